@@ -24,6 +24,8 @@
 #include "turbojpeg.c"
 /* the memory manager of the tree as well, for its private bookkeeping (total_space_allocated, pool lists) */
 #include "jmemmgr.c"
+/* the marker reader of the tree, for its private "which markers are saved" settings */
+#include "jdmarker.c"
 #include "jdmaster.h"
 #define C12_NUMPARAM (TJPARAM_SAVEMARKERS + 1)
 
@@ -303,6 +305,7 @@ static void hook_error_exit(j_common_ptr cinfo)
 
 static int (*orig_read_markers) (j_decompress_ptr) = NULL;
 static void (*orig_reset_marker_reader) (j_decompress_ptr) = NULL;
+static void (*orig_start_input_pass) (j_decompress_ptr) = NULL;
 
 static tjhandle new_instance(int type)
 {
@@ -312,6 +315,7 @@ static tjhandle new_instance(int type)
   if ((t->init & DECOMPRESS) && !orig_read_markers) {
     orig_read_markers = t->dinfo.marker->read_markers;
     orig_reset_marker_reader = t->dinfo.marker->reset_marker_reader;
+    orig_start_input_pass = t->dinfo.inputctl->start_input_pass;
   }
   t->jerr.pub.error_exit = hook_error_exit;
   return hnd;
@@ -374,9 +378,18 @@ static void dump_state(tjinstance *t, char *out, size_t cap)
                 (t->init & COMPRESS) ? mem_drift(t->cinfo.mem) : 0L, (t->init & COMPRESS) ? image_pool_empty(t->cinfo.mem) : 1,
                 (t->init & DECOMPRESS) ? mem_drift(t->dinfo.mem) : 0L, (t->init & DECOMPRESS) ? image_pool_empty(t->dinfo.mem) : 1);
   /* are the marker reader's methods the ones jinit_marker_reader installed? */
-  n += snprintf(out + n, cap - n, "k:%d,%d ",
+  n += snprintf(out + n, cap - n, "k:%d,%d,%d ",
                 (t->init & DECOMPRESS) ? (t->dinfo.marker->read_markers == orig_read_markers) : 1,
-                (t->init & DECOMPRESS) ? (t->dinfo.marker->reset_marker_reader == orig_reset_marker_reader) : 1);
+                (t->init & DECOMPRESS) ? (t->dinfo.marker->reset_marker_reader == orig_reset_marker_reader) : 1,
+                (t->init & DECOMPRESS) ? (t->dinfo.inputctl->start_input_pass == orig_start_input_pass) : 1);
+  /* sticky jpeg_save_markers() settings: COM, APP2, any other APPn */
+  if (t->init & DECOMPRESS) {
+    my_marker_ptr mk_ = (my_marker_ptr)t->dinfo.marker;
+    int other = 0, a;
+    for (a = 0; a < 16; a++) if (a != 2 && mk_->length_limit_APPn[a]) other = 1;
+    n += snprintf(out + n, cap - n, "s:%d,%d,%d ", mk_->length_limit_COM != 0, mk_->length_limit_APPn[2] != 0, other);
+  } else
+    n += snprintf(out + n, cap - n, "s:0,0,0 ");
   n += snprintf(out + n, cap - n, "p:");
   for (i = 0; i < C12_NUMPARAM; i++) n += snprintf(out + n, cap - n, "%d,", tj3Get((tjhandle)t, i));
   n += snprintf(out + n, cap - n, "%d,%d,%d,%d,%d,%d,%d", t->scalingFactor.num, t->scalingFactor.denom, t->croppingRegion.x,
